@@ -62,7 +62,7 @@ def gen_cfg(rng):
             break
     ml_bank = rng.random() < 0.4
     # 0 = periodic anti-entropy disabled (the constructor default)
-    ae = 0 if rng.random() < 0.12 else rng.choice([dur_ms(rng, 20 if not long else 60, 400),
+    ae = 0 if rng.random() < 0.08 else rng.choice([dur_ms(rng, 20 if not long else 60, 400),
                                                    dur_ms(rng, 400, end_ms + 500)])
     return {
         "end": end,
